@@ -261,3 +261,47 @@ func c03ScheduleStop(t *rapid.T, ctl *vhook.Controller, maxSteps int, check func
 		}
 	})
 }
+
+// TestVerifC03Known replays, with a fixed schedule, the known finding
+// "use-after-unmap": an adder takes the counter's reader count, the rotator
+// runs rotate1 to completion (which unmaps the previous mapping), the adder
+// resumes inside Counter.add. If the defect is repaired nothing is reported.
+func TestVerifC03Known(t *testing.T) {
+	defer vstats.Flush()
+	base := t.TempDir()
+	env := c03Setup(base, 1, true)
+	f := &file{}
+	defer env.teardown(f)
+	now := time.Date(2024, 3, 4, 12, 0, 0, 0, time.UTC)
+	CounterTime = func() time.Time { return now }
+	f.rotate1()
+	c := &Counter{name: "c0", file: f}
+	c.Add(1) // now the counter has a pointer into the first mapping
+	ctl := vhook.New()
+	adder := ctl.Go("adder", func() { c.Add(1) })
+	rotator := ctl.Go("rotator", func() { now = now.Add(8 * 24 * time.Hour); f.rotate1() })
+	ctl.Install()
+	defer vhook.Uninstall()
+	for i := 0; i < 1000 && !adder.Done && c.state.load().readers() != 1; i++ {
+		ctl.Step(adder)
+	}
+	if adder.Done {
+		t.Fatalf("harness: the adder finished before taking the reader count")
+	}
+	if !ctl.RunAlone(rotator, 100000) {
+		t.Fatalf("rotator did not finish while a reader was active (blocked: the defect may have been repaired by waiting; adjust this replay)")
+	}
+	ctl.RunAlone(adder, 100000)
+	vhook.Uninstall()
+	vstats.Case("fixed schedule: adder takes reader count; rotator completes rotate1; adder resumes", true, "known-replay")
+	if adder.Panic == nil {
+		return // not reproduced: repaired
+	}
+	if adder.IsFault && env.inClosed(adder.FaultAddr) {
+		if vstats.Known("use-after-unmap") {
+			return
+		}
+		t.Fatalf("use after unmap in Counter.add (fault at %#x)\n%s", adder.FaultAddr, adder.Stack)
+	}
+	t.Fatalf("adder panicked: %v\n%s", adder.Panic, adder.Stack)
+}
